@@ -164,6 +164,10 @@ func run() int {
 	hdir := filepath.Dir(*flagSpec)
 	hdir, _ = filepath.Abs(hdir)
 	outDir := filepath.Join(*flagVerif, "out", "replay", spec.Property)
+	if *flagReplay != "" {
+		// a replay must not delete the draw files of the run that reported them
+		outDir = filepath.Join(*flagVerif, "out", "replay-run", spec.Property)
+	}
 	os.RemoveAll(outDir)
 	os.MkdirAll(outDir, 0o755)
 
